@@ -637,7 +637,7 @@ func (sc *specCtx) addrOf(x SExpr) SV {
 		if sl, ok := v.Ty.Underlying().(*types.Slice); ok {
 			s := sc.mat(v)
 			i := sc.mat(sc.val(n.I))
-			return SV{T: fmt.Sprintf("(Elem (sl_base %s) (+ (sl_off %s) %s))", s, s, i), Ty: types.NewPointer(sl.Elem())}
+			return SV{T: fmt.Sprintf("(selem %s %s)", s, i), Ty: types.NewPointer(sl.Elem())}
 		}
 	case *SIdent:
 		v := sc.val(x)
@@ -659,7 +659,7 @@ func (sc *specCtx) idx(n *SIdx) SV {
 		}
 	case *types.Slice:
 		s := sc.mat(v)
-		a := fmt.Sprintf("(Elem (sl_base %s) (+ (sl_off %s) %s))", s, s, sc.mat(i))
+		a := fmt.Sprintf("(selem %s %s)", s, sc.mat(i))
 		if isStruct(u.Elem()) && e.m.structOf(u.Elem()) != nil {
 			return SV{Addr: a, Ty: u.Elem()}
 		}
